@@ -243,6 +243,7 @@ class Gen:
             e = self._ewise(tv, cls, depth, kinds, mul_ok)
             bad = []
             _walk(e, lambda d: bad.append(1) if ("fn" in d and d.get("args") and not _has_col(d)) or ("case" in d and not _has_col(d))
+                  or ("case" in d and any(not _has_col(b) for b in d["case"]))      # a literal-only when/then branch (engine finding D51)
                   or ("cast" in d and not _has_col(d)) else None)
             if not bad:
                 return e
